@@ -363,6 +363,28 @@ def gen_ops(rng, tier, ctx=None):
     for a in range(0, 40):
         for b in range(3, 40, 2):
             yield "mpn_jacobi_base %x %x %x" % (a, b, (a ^ b) & 2)
+    # ---------- mpn_jacobi_2 directed: every entry/exit of the two-limb loops
+    for _ in range(2500 if quick else 25000):
+        k = rng.randrange(10)
+        al, ah, bl, bh = rand_limb(rng), rand_limb(rng), rand_limb(rng) | 1, rand_limb(rng)
+        if k == 0: al = 0
+        elif k == 1: bh = ah
+        elif k == 2: bh = 0
+        elif k == 3: ah = 0
+        elif k == 4: al = rng.getrandbits(64) << rng.randrange(1, 64) & M
+        elif k == 5: bh = ah; bl = (al | 1) if rng.random() < 0.5 else bl       # cancel_hi with al - bl = 0 or small
+        elif k == 6:
+            a, b = fib_pair(rng.randrange(93, 185)); a <<= rng.randrange(0, 128 - a.bit_length() + 1); al, ah, bl, bh = a & M, a >> 64, (b & M) | 1, b >> 64
+        elif k == 7:                                                             # multiples: result 0
+            g = rng.getrandbits(rng.randrange(2, 60)) | 1; x = g * (rng.getrandbits(60)); y = g * (rng.getrandbits(60) | 1); al, ah, bl, bh = x & M, x >> 64, y & M, y >> 64
+        elif k == 8: bh = 0; bl = rng.choice([1, 3, 5, 7, M])
+        al &= M; ah &= M; bl = (bl & M) | 1; bh &= M
+        yield "mpn_jacobi_2 [%x,%x] [%x,%x] %x" % (al, ah, bl, bh, rng.randrange(2))
+    for n in ([1, 2, 3, 4, 7] if quick else [1, 2, 3, 4, 7, 15, 30, 114, 461]):
+        for _ in range(40 if quick else 100):
+            a = rand_limbs(rng, n); b = rand_limbs(rng, n); b[0] |= 1
+            if a[n - 1] | b[n - 1] == 0: b[n - 1] = 1
+            yield "mpn_jacobi_n %s %s %x" % (vec(a), vec(b), rng.randrange(2))
 
 def nontrivial(line):
     op = line.split(" ", 1)[0]
